@@ -1,10 +1,14 @@
 /-
   C17 — Mutations through Ufs equal the corresponding POSIX operations.
   Property theorems only. What the POSIX calls do is the operating system's business; the
-  translation go9p performs is proved here: the open-flag table for all 256 modes.
-  (The twin-tree correspondence run carries the rest: see DESIGN.md.)
+  translation go9p performs is proved here: the open-flag table for all 256 modes, and which
+  POSIX calls `Ufs.Create` and `Ufs.Wstat` make for a request, with which arguments and in which
+  order (model: G9.UfsPlan) — exactly the ones the request asks for and no other.
+  The twin-tree correspondence applies the plan to a second tree and compares it with what the
+  file server did to the first: see DESIGN.md.
 -/
 import G9.UfsLogic
+import G9.UfsPlan
 namespace G9.C17
 open G9 G9.Ufs
 
@@ -25,5 +29,124 @@ theorem omode_flags_table_nat : ∀ n, n < 256 → omode2uflags (UInt8.ofNat n) 
 theorem omode_flags_table (mode : UInt8) : omode2uflags mode = flagSpec mode.toNat := by
   have := omode_flags_table_nat mode.toNat mode.toNat_lt
   simpa using this
+
+
+/-! ### which POSIX calls a request leads to (model: G9.UfsPlan) -/
+section plan
+open G9.UfsPlan
+
+/-- A Twstat whose stat record asks for nothing ("don't touch" in every field) makes no call at
+    all, in either dialect. -/
+theorem wstat_asks_nothing_does_nothing (dotu : Bool) (lu lg : Option Nat) :
+    wstatPlan dotu WReq.nothing lu lg = .calls [] := by
+  cases dotu <;> simp [wstatPlan, WReq.nothing, NO32, NO64, UfsPlan.NOUID]
+
+/-- The calls of a Twstat are, in this order and each at most once: chmod, chown, rename,
+    truncate, chtimes — and each is made exactly when the request names the corresponding field,
+    with the value the request carries. -/
+theorem wstat_only_what_was_asked (dotu : Bool) (w : WReq) (lu lg : Option Nat) (l : List POp)
+    (h : wstatPlan dotu w lu lg = .calls l) :
+    ∃ a b c d e, l = a ++ b ++ c ++ d ++ e ∧
+      a = (if w.mode != NO32 then [.chmod (fileMode dotu w.mode)] else []) ∧
+      (b = [] ∨ ∃ u g, b = [.chown u g] ∧ (u ≠ UfsPlan.NOUID ∨ g ≠ UfsPlan.NOUID) ∧ (dotu = true → u = w.uidnum ∧ g = w.gidnum)) ∧
+      c = (if w.hasName then [.rename] else []) ∧
+      d = (if w.length != NO64 then [.truncate w.length] else []) ∧
+      e = (if w.mtime != NO32 || w.atime != NO32 then
+             [.chtimes w.atime (if w.mtime == NO32 then none else some w.mtime)] else []) := by
+  unfold wstatPlan at h
+  simp only at h
+  split at h
+  · cases h
+  · rename_i uid gid hids
+    split at h
+    · cases h
+    · cases h
+      refine ⟨_, _, _, _, _, rfl, rfl, ?_, rfl, rfl, rfl⟩
+      by_cases hc : (uid != UfsPlan.NOUID || gid != UfsPlan.NOUID) = true
+      · right
+        refine ⟨uid, gid, by simp [hc], ?_, ?_⟩
+        · simp only [Bool.or_eq_true, bne_iff_ne, ne_eq] at hc; exact hc
+        · intro hd
+          subst hd
+          simp only [if_true, Option.some.injEq, Prod.mk.injEq] at hids
+          exact ⟨hids.1.symm, hids.2.symm⟩
+      · left; simp [hc]
+
+/-- a rename whose destination is outside the exported root is refused, not attempted -/
+theorem wstat_rename_confined (dotu : Bool) (w : WReq) (lu lg : Option Nat) (hn : w.hasName = true)
+    (ho : w.destInRoot = false) : ∀ l, wstatPlan dotu w lu lg ≠ .calls l := by
+  intro l h
+  unfold wstatPlan at h
+  simp only at h
+  split at h
+  · cases h
+  · simp [hn, ho] at h
+
+/-- The mode handed to chmod or to the creating open is the nine permission bits of the request;
+    the Unix setuid/setgid bits are added only on a 9P2000.u connection, nothing else ever. -/
+theorem mode_is_permission_bits (dotu : Bool) (perm : Nat) :
+    fileMode false perm = perm &&& 0o777 ∧ fileMode dotu perm < 0o10000 ∧
+    fileMode dotu perm % 0o1000 = perm % 0o1000 := by
+  refine ⟨by simp [fileMode], ?_, ?_⟩
+  · unfold fileMode
+    have h1 : perm &&& 0o777 < 2 ^ 12 := Nat.lt_of_le_of_lt Nat.and_le_right (by decide)
+    have h2 : (if (dotu && bit perm DMSETUID) = true then S_ISUID else 0) < 2 ^ 12 := by
+      split <;> decide
+    have h3 : (if (dotu && bit perm DMSETGID) = true then S_ISGID else 0) < 2 ^ 12 := by
+      split <;> decide
+    exact Nat.or_lt_two_pow (Nat.or_lt_two_pow h1 h2) h3
+  · unfold fileMode
+    have e1 : ∀ x : Nat, x % 0o1000 = x &&& 0o777 := by
+      intro x
+      have := Nat.and_two_pow_sub_one_eq_mod x 9
+      simpa using this.symm
+    rw [e1, e1, Nat.and_or_distrib_right, Nat.and_or_distrib_right, Nat.and_assoc, Nat.and_self]
+    have h2 : (if (dotu && bit perm DMSETUID) = true then S_ISUID else 0) &&& 0o777 = 0 := by
+      split <;> decide
+    have h3 : (if (dotu && bit perm DMSETGID) = true then S_ISGID else 0) &&& 0o777 = 0 := by
+      split <;> decide
+    rw [h2, h3]
+    simp
+
+/-- a call that makes a new object in the tree -/
+def makes : POp → Bool
+  | .mkdir _ | .symlink | .link | .openCreate _ _ => true
+  | _ => false
+
+/-- Tcreate: what is made is what the permission word asks for — a directory (with the nine
+    permission bits), a symbolic link, a hard link, or a regular file opened with the translated
+    flags and the permission bits — and never more than one object; a follow-up open of the new
+    object is the only other call. -/
+theorem create_makes_what_was_asked (dotu : Bool) (perm omode : Nat) (inr num fid : Bool) (l : List POp)
+    (h : createPlan dotu perm omode inr num fid = .calls l) :
+    (l.filter makes).length ≤ 1 ∧
+    (bit perm DMDIR = true → l = [.mkdir (perm &&& 0o777), .openPlain omode]) ∧
+    (bit perm DMDIR = false → bit perm DMSYMLINK = true → l = [.symlink, .openPlain omode] ∧ inr = true) ∧
+    (bit perm DMDIR = false → bit perm DMSYMLINK = false → bit perm DMLINK = true →
+      l = [.link, .openPlain omode] ∧ num = true ∧ fid = true) ∧
+    (bit perm DMDIR = false → bit perm DMSYMLINK = false → bit perm DMLINK = false →
+      bit perm DMNAMEDPIPE = false → l = [.openCreate omode (fileMode dotu perm)]) := by
+  unfold createPlan at h
+  cases h1 : bit perm DMDIR <;> cases h2 : bit perm DMSYMLINK <;> cases h3 : bit perm DMLINK <;>
+    cases h4 : bit perm DMNAMEDPIPE <;> cases h5 : bit perm DMDEVICE <;>
+    cases inr <;> cases num <;> cases fid <;> simp [h1, h2, h3, h4, h5] at h <;>
+    subst h <;> simp [makes, List.filter]
+
+/-- a symbolic link whose target would leave the exported tree, a hard link to something that is
+    not a fid, a device file: refused by the file server without any call -/
+theorem create_refusals_make_no_call (dotu : Bool) (perm omode : Nat) (inr num fid : Bool)
+    (hd : bit perm DMDIR = false) :
+    (bit perm DMSYMLINK = true → inr = false → createPlan dotu perm omode inr num fid = .refuse "eperm") ∧
+    (bit perm DMSYMLINK = false → bit perm DMLINK = true → num = true → fid = false →
+      createPlan dotu perm omode inr num fid = .refuse "unknownfid") := by
+  unfold createPlan
+  refine ⟨fun h1 h2 => by simp [hd, h1, h2], fun h1 h2 h3 h4 => by simp [hd, h1, h2, h3, h4]⟩
+
+/-! non-vacuity: a chmod-and-truncate Twstat on a .u connection, a plain file create -/
+example : wstatPlan true { WReq.nothing with mode := 0o640, length := 3 } none none =
+    .calls [.chmod 0o640, .truncate 3] := by decide
+example : createPlan false 0o644 1 true false false = .calls [.openCreate 1 0o644] := by decide
+
+end plan
 
 end G9.C17
